@@ -64,3 +64,174 @@ package basestore
 //@   loop 1 noexit
 //@   assume @ loop 1 body: evt != nil
 //@   loop 1.1 invariant len(entries) == len(msg.Heads)
+
+// ---- the store protocol (C01 C05 C16 ...) -----------------------------------------------------------
+// synced(b): the view served to readers is the replay of the log's current listing
+//@ spec func synced(b Int) Bool = idxState(ptr(b, "basestore.BaseStore").index) == viewOf(valsOf(ptr(b, "basestore.BaseStore").oplog))
+//@ spec func wf(b Int) Bool = b != 0 && ptr(b, "basestore.BaseStore").oplog != nil && ptr(b, "basestore.BaseStore").index != nil && ptr(b, "basestore.BaseStore").cache != nil && ptr(b, "basestore.BaseStore").replicationStatus != nil && ptr(b, "basestore.BaseStore").tracer != nil && ptr(b, "basestore.BaseStore").logger != nil && ptr(b, "basestore.BaseStore").access != nil && ptr(b, "basestore.BaseStore").identity != nil && ptr(b, "basestore.BaseStore").options != nil && ptr(b, "basestore.BaseStore").replicator != nil
+
+//@ func (*BaseStore).updateIndex
+//@   props C01 C05 C16
+//@   flag nilcalls
+//@   requires wf(b)
+//@   ensures result == nil ==> synced(b)
+//@   modifies idxState(b.index)
+
+// AddOperation (local write): append -> persist the new local head -> re-derive the view -> acknowledge.
+//  * success: exactly one new entry, carrying the operation's bytes, is in the log; the cache names it as the
+//    local head; the view is the replay of the log; exactly one write event was emitted, after all of that;
+//  * failure: no write event; if the append itself was refused (non-writer) nothing at all changed.
+//@ func (*BaseStore).AddOperation
+//@   props C01 C03 C05 C06 C07 C16
+//@   flag nilcalls
+//@   requires wf(b) && op != nil && ref(op) != 0 && b.emitters.evtWrite != nil
+//@   requires statusProgress(b.replicationStatus) <= statusMax(b.replicationStatus)
+//@   ghost L := b.oplog
+//@   ghost C := b.cache
+//@   ghost W := b.emitters.evtWrite
+//@   ghost N0 := evCount(b.emitters.evtWrite)
+//@   ghost LH := dsKey("_localHeads")
+//@   assert @ before call b.emitters.evtWrite.Emit#1: synced(b) && dsHas(C)[LH] && len(headsDec(dsMap(C)[LH])) == 1 && hs(headsDec(dsMap(C)[LH])[0]) == hs(e) && ents(L)[e]
+//@   ensures result1 == nil ==> result != nil && ents(L)[result] && !old(ents(L)[result]) && logLen(L) == old(logLen(L)) + 1
+//@   ensures result1 == nil ==> (forall x Iface :: old(ents(L)[x]) ==> ents(L)[x])
+//@   ensures result1 == nil ==> dsHas(C)[LH] && len(headsDec(dsMap(C)[LH])) == 1 && hs(headsDec(dsMap(C)[LH])[0]) == hs(result) && headsWF(dsMap(C)[LH])
+//@   ensures result1 == nil ==> synced(b)
+//@   ensures result1 == nil ==> evCount(W) == N0 + 1 && unbox(evLast(W), "V_stores_EventWrite").Entry == result
+//@   ensures result1 == nil ==> canAppendOK(acOf(L), result)
+//@   ensures result1 != nil ==> evCount(W) == N0
+//@   ensures result1 != nil && logLen(L) == old(logLen(L)) ==> ents(L) == old(ents(L)) && valsOf(L) == old(valsOf(L)) && dsMap(C) == old(dsMap(C)) && idxState(b.index) == old(idxState(b.index))
+//@   ensures statusProgress(b.replicationStatus) <= statusMax(b.replicationStatus)
+//@   ensures result1 == nil ==> (opHasKey(result) == (ptr(op, "operation.operation").Key != nil)) && (opHasKey(result) ==> opKey(result) == deref(ptr(op, "operation.operation").Key)) && opKind(result) == ptr(op, "operation.operation").Op && opValue(result) == ptr(op, "operation.operation").Value && opOK(result)
+//@   modifies ents(b.oplog), valsOf(b.oplog), logLen(b.oplog), headsOf(b.oplog), dsMap(b.cache), dsHas(b.cache), idxState(b.index), statusMax(b.replicationStatus), statusProgress(b.replicationStatus), evCount(b.emitters.evtWrite), evLast(b.emitters.evtWrite), "G:sent:Iface"
+
+// replicationLoadComplete (a batch of fetched logs): every log of the batch is offered to Join whatever
+// happens to the others (C10); only logs fetched by content address for this database and access controller
+// are joined (C04); nothing already merged is ever removed (C08); the replicated event is emitted at most
+// once, and only after the view was re-derived and the merged heads were persisted (C01 C05 C16).
+//@ func (*BaseStore).replicationLoadComplete
+//@   props C01 C04 C05 C08 C10 C16
+//@   flag nilcalls
+//@   requires wf(b) && b.emitters.evtReplicated != nil
+//@   requires statusProgress(b.replicationStatus) <= statusMax(b.replicationStatus)
+//@   requires forall i Int :: 0 <= i && i < len(logs) ==> logs[i] != nil && prov(logs[i]) == 1 && logID(logs[i]) == logID(b.oplog) && acOf(logs[i]) == acOf(b.oplog)
+//@   ghost L := b.oplog
+//@   ghost C := b.cache
+//@   ghost R := b.emitters.evtReplicated
+//@   ghost N0 := evCount(b.emitters.evtReplicated)
+//@   ghost J0 := joinCalls(b.oplog)
+//@   ghost RH := dsKey("_remoteHeads")
+//@   loop 1 noexit
+//@   loop 1 frame ents(L), valsOf(L), logLen(L), headsOf(L), joinCalls(L)
+//@   loop 1 invariant oplog == L && joinCalls(L) == J0 + $i && 0 <= joined && joined <= $i
+//@   loop 1 invariant forall x Iface :: old(ents(L)[x]) ==> ents(L)[x]
+//@   loop 1 invariant evCount(R) == N0 && statusProgress(b.replicationStatus) <= statusMax(b.replicationStatus)
+//@   assert @ before call oplog.Join#1: prov(log) != 0 && logID(log) == logID(oplog) && acOf(log) == acOf(oplog)
+//@   assert @ before call b.emitters.evtReplicated.Emit#1: synced(b) && dsHas(C)[RH] && len(headsDec(dsMap(C)[RH])) == len(headsOf(L)) && (forall j Int :: 0 <= j && j < len(headsOf(L)) ==> hs(headsDec(dsMap(C)[RH])[j]) == hs(headsOf(L)[j]))
+//@   ensures joinCalls(L) == J0 + len(logs)
+//@   ensures forall x Iface :: old(ents(L)[x]) ==> ents(L)[x]
+//@   ensures evCount(R) == N0 || evCount(R) == N0 + 1
+//@   ensures evCount(R) == N0 + 1 ==> synced(b) && dsHas(C)[RH]
+//@   ensures statusProgress(b.replicationStatus) <= statusMax(b.replicationStatus)
+//@   modifies ents(b.oplog), valsOf(b.oplog), logLen(b.oplog), headsOf(b.oplog), joinCalls(b.oplog), dsMap(b.cache), dsHas(b.cache), idxState(b.index), statusMax(b.replicationStatus), statusProgress(b.replicationStatus), evCount(b.emitters.evtReplicated), evLast(b.emitters.evtReplicated)
+
+// Load: the effective limit is the argument when positive, else MaxHistory when positive, else unlimited
+// (-1); every Join meets the dependency's size precondition for every limit (C15); the loop over the cached
+// heads never stops early; on success with cached heads the view is re-derived before the ready event.
+//@ func (*BaseStore).Load
+//@   props C15 C05 C01 C16
+//@   flag nilcalls
+//@   flag inline-go$2
+//@   requires wf(b) && b.emitters.evtLoad != nil && b.emitters.evtReady != nil && b.emitters.evtLoadProgress != nil
+//@   requires statusProgress(b.replicationStatus) <= statusMax(b.replicationStatus)
+//@   requires dsHas(b.cache)[dsKey("_localHeads")] ==> headsWF(dsMap(b.cache)[dsKey("_localHeads")])
+//@   requires dsHas(b.cache)[dsKey("_remoteHeads")] ==> headsWF(dsMap(b.cache)[dsKey("_remoteHeads")])
+//@   ghost lim := amount > 0 ? amount : ((b.options.MaxHistory != nil && deref(b.options.MaxHistory) > 0) ? deref(b.options.MaxHistory) : 0 - 1)
+//@   ghost L := b.oplog
+//@   loop 1 invariant len(headsForEvent) == len(heads)
+//@   loop 2 noexit
+//@   loop 2 invariant amount == lim && statusProgress(b.replicationStatus) <= statusMax(b.replicationStatus) && b.oplog == L
+//@   loop 2 invariant forall j Int :: 0 <= j && j < len(heads) ==> heads[j] != nil && heads[j].Clock != nil
+//@   assert @ before call ipfslog.NewFromEntryHash#1: amount == lim
+//@   assert @ before call b.emitters.evtReady.Emit#1: len(heads) > 0 ==> synced(b)
+//@   ensures result == nil && len(heads) > 0 ==> synced(b)
+
+// handleEventWrite (C09): a store announces only write events of its own address, under its own address,
+// with the heads carried by the event; anything else is ignored (the event bus is shared by the instance).
+//@ func (*BaseStore).handleEventWrite
+//@   props C09
+//@   flag nilcalls
+//@   requires b.logger != nil && b.messageMarshaler != nil && e != nil && b.address != nil && addrStr(b.address) == b.id
+//@   ghost P0 := topic != nil ? pubCount(topic) : 0
+//@   loop 1 invariant len(entries) == len(e.Heads)
+//@   loop 1 invariant forall j Int :: 0 <= j && j < i ==> entries[j] == ref(e.Heads[j])
+//@   assert @ before call topic.Publish#1: e.Address != nil && addrStr(e.Address) == b.id && payload == encMsg(b.id, entries)
+//@   ensures topic != nil && (e.Address == nil || addrStr(e.Address) != b.id) ==> pubCount(topic) == P0
+//@   ensures topic != nil ==> pubCount(topic) == P0 || pubCount(topic) == P0 + 1
+//@   modifies pubCount(topic), pubLast(topic)
+
+// exchangeHeads (C05 C09): one message per joining peer, under this store's address, carrying heads decoded
+// from this store's own cache, sent on this store's direct channel.
+//@ func (*BaseStore).exchangeHeads
+//@   props C05 C09
+//@   flag nilcalls
+//@   requires b.logger != nil && b.messageMarshaler != nil && b.directChannel != nil && b.cache != nil
+//@   ghost D := b.directChannel
+//@   ghost S0 := dcSent(b.directChannel)
+//@   assert @ before call b.directChannel.Send#1: payload == encMsg(b.id, heads)
+//@   ensures result == nil ==> dcSent(D) == S0 + 1
+//@   ensures dcSent(D) == S0 || dcSent(D) == S0 + 1
+//@   modifies dcSent(b.directChannel), dcLast(b.directChannel), "C:Slice_Int", "C:Slice_Str", "C:Slice_V_cid_Cid"
+
+// The store main loop (C09 C19 C12): consumes the events of this store's own replicator only, keeps
+// progress <= max across every status update, hands fetched batches to replicationLoadComplete, and only
+// ends with the store's context.
+//@ func (*BaseStore).InitBaseStore$2
+//@   props C09 C19 C10
+//@   flag nilcalls
+//@   flag assume-typeassert
+//@   requires wf(b) && b.emitters.evtReplicate != nil && b.emitters.evtReplicated != nil && b.emitters.evtReplicateProgress != nil && sub != nil && b.address != nil
+//@   requires statusProgress(b.replicationStatus) <= statusMax(b.replicationStatus)
+//@   loop 1 noexit
+//@   loop 1 invariant wf(b) && statusProgress(b.replicationStatus) <= statusMax(b.replicationStatus) && span != nil
+//@   assume @ case replicator.EventLoadProgress: evt.Entry != nil && ref(evt.Entry) != 0 && ptr(evt.Entry, "entry.Entry").Clock != nil
+//@   assume @ case replicator.EventLoadAdded: evt.Entry != nil ==> ref(evt.Entry) != 0
+//@   assume @ case replicator.EventLoadEnd: forall i Int :: 0 <= i && i < len(evt.Logs) ==> evt.Logs[i] != nil && prov(evt.Logs[i]) == 1 && logID(evt.Logs[i]) == logID(b.oplog) && acOf(evt.Logs[i]) == acOf(b.oplog)
+
+// InitBaseStore (C09 C03): the log of the store is built with the store's address and access controller,
+// and the main loop subscribes to a bus that belongs to this store's replicator alone.
+//@ func (*BaseStore).InitBaseStore
+//@   props C09 C03
+//@   flag no-safety
+//@   assert @ before call options.Index#1: acOf(b.oplog) == b.access && logID(b.oplog) == addrStr(addr)
+//@   assert @ before call b.replicator.EventBus().Subscribe#1: freshBus(replBus(b.replicator))
+
+// LoadFromSnapshot (C13 C08 C01): record lengths read from the file are 16-bit, so every allocation is
+// valid whatever the file says; the rebuilt log is joined untrimmed (nothing already merged is removed);
+// on success the view is the replay of the log.
+//@ func (*BaseStore).LoadFromSnapshot
+//@   props C13 C08 C01
+//@   flag nilcalls
+//@   requires wf(b) && b.emitters.evtLoad != nil && b.ipfs != nil && b.address != nil && b.options.IO != nil
+//@   requires statusProgress(b.replicationStatus) <= statusMax(b.replicationStatus)
+//@   ghost L := b.oplog
+//@   loop 1 invariant true
+//@   loop 2 invariant header != nil && res != nil && b.oplog == L && wf(b) && (forall x Iface :: old(ents(L)[x]) ==> ents(L)[x])
+//@   loop 3 invariant true
+//@   assume @ before call e.Clock.GetTime#1: e.Clock != nil
+//@   assume @ loop 3 body: h != nil
+//@   ensures result == nil ==> synced(b)
+//@   ensures forall x Iface :: old(ents(L)[x]) ==> ents(L)[x]
+
+// SaveSnapshot (C13): never panics; every recorded 16-bit length equals the real length (the conversions
+// are value preserving: larger records are refused with an error); on success the header records as many
+// entries as the log holds and the snapshot path was put in the cache after the data was stored.
+//@ func SaveSnapshot
+//@   props C13
+//@   flag nilcalls
+//@   requires b != nil && stOpLog(b) != nil && stCache(b) != nil && stRepl(b) != nil
+//@   ghost L := stOpLog(b)
+//@   ghost C := stCache(b)
+//@   loop 1 invariant len(entries) == len(untypedEntries)
+//@   loop 2 invariant oplog == L && logLen(L) == old(logLen(L))
+//@   ensures result1 == nil ==> snapSize(header) == logLen(L) && snapNHeads(header) == len(headsOf(L))
+//@   ensures result1 == nil ==> dsHas(C)[dsKey("snapshot")]
